@@ -22,7 +22,7 @@ EXTENDS Layout, TLC, FiniteSets
 LIM == 1073741824     \* 2^30
 
 Unit == <<>>
-Dead(st) == st.panic # {} \/ st.oom
+Dead(st) == st.panic # {} \/ st.oom \/ st.tyerr
 Oom(st) == [st EXCEPT !.oom = TRUE]
 PanicAt(st, r, ms) == [st EXCEPT !.panic = {[r |-> r, m |-> x] : x \in ms}]
 R(st, v) == [st |-> st, v |-> v]
@@ -34,8 +34,8 @@ KnownInt(t) == t \in IntTypes
 (* scopes *)
 RECURSIVE LookupFrom(_, _, _)
 LookupFrom(scopes, i, n) ==
-    IF i = 0 THEN [found |-> FALSE, v |-> 0]
-    ELSE IF n \in DOMAIN scopes[i] THEN [found |-> TRUE, v |-> scopes[i][n]]
+    IF i = 0 THEN [found |-> FALSE, v |-> 0, t |-> [k |-> "none"]]
+    ELSE IF n \in DOMAIN scopes[i] THEN [found |-> TRUE, v |-> scopes[i][n].v, t |-> scopes[i][n].t]
     ELSE LookupFrom(scopes, i - 1, n)
 Lookup(st, n) == LookupFrom(st.scopes, Len(st.scopes), n)
 
@@ -45,13 +45,13 @@ DeclScope(scopes, i, n) ==
 
 Push(st) == [st EXCEPT !.scopes = Append(@, <<>>)]
 Pop(st) == [st EXCEPT !.scopes = SubSeq(@, 1, Len(@) - 1)]
-Bind(st, n, v) == [st EXCEPT !.scopes[Len(st.scopes)] = (n :> v) @@ @]
+Bind(st, n, v, t) == [st EXCEPT !.scopes[Len(st.scopes)] = (n :> [v |-> v, t |-> t]) @@ @]
 RECURSIVE BindAll(_, _)
-BindAll(st, binds) ==   \* binds: sequence of <<name, value>>, later ones shadow earlier ones
-    IF binds = <<>> THEN st ELSE BindAll(Bind(st, Head(binds)[1], Head(binds)[2]), Tail(binds))
+BindAll(st, binds) ==   \* binds: sequence of <<name, value, type>>, later ones shadow earlier ones
+    IF binds = <<>> THEN st ELSE BindAll(Bind(st, Head(binds)[1], Head(binds)[2], Head(binds)[3]), Tail(binds))
 Assign(st, n, v) ==
     LET i == DeclScope(st.scopes, Len(st.scopes), n)
-    IN  IF i = 0 THEN Oom(st) ELSE [st EXCEPT !.scopes[i] = (n :> v) @@ @]
+    IN  IF i = 0 THEN Oom(st) ELSE [st EXCEPT !.scopes[i] = (n :> [v |-> v, t |-> st.scopes[i][n].t]) @@ @]
 
 -----------------------------------------------------------------------------
 (* scalar operators on TLC integers, with the model limit for wide types *)
@@ -121,7 +121,7 @@ HasField(fs, name) == \E i \in 1..Len(fs) : fs[i].n = name
 RECURSIVE MatchP(_, _, _), MatchSeq(_, _, _, _)
 (* result: [ok, binds] *)
 MatchP(prog, p, v) ==
-    CASE p.k = "pid" -> [ok |-> TRUE, binds |-> << <<p.n, v>> >>]
+    CASE p.k = "pid" -> [ok |-> TRUE, binds |-> << <<p.n, v, p.ty>> >>]
       [] p.k = "ptrue" -> [ok |-> v = 1, binds |-> <<>>]
       [] p.k = "pfalse" -> [ok |-> v = 0, binds |-> <<>>]
       [] p.k = "pnum" -> [ok |-> v = p.v, binds |-> <<>>]
@@ -243,7 +243,7 @@ ExecStmt(prog, s, st) ==
                      IN  IF mr.ok THEN R(BindAll(r.st, mr.binds), Unit) ELSE R(Oom(r.st), Unit)
       [] s.k = "letmut" ->
             LET r == Eval(prog, s.e, st)
-            IN  IF Dead(r.st) THEN R(r.st, Unit) ELSE R(Bind(r.st, s.n, r.v), Unit)
+            IN  IF Dead(r.st) THEN R(r.st, Unit) ELSE R(Bind(r.st, s.n, r.v, s.e.ty), Unit)
       [] s.k = "assign" ->
             LET idxAccs == SelectSeq(s.acc, LAMBDA a : a.k = "idx")
                 members == [i \in 1..Len(idxAccs) |-> idxAccs[i].i] \o <<s.e>>
@@ -284,7 +284,12 @@ Eval(prog, e, st) ==
       [] e.k = "false" -> R(st, 0)
       [] e.k = "num" -> IF e.ty.k = "int" /\ KnownInt(e.ty.t) THEN R(st, e.v) ELSE R(Oom(st), 0)
       [] e.k = "var" ->
-            LET l == Lookup(st, e.n) IN IF l.found THEN R(st, l.v) ELSE R(Oom(st), 0)
+            LET l == Lookup(st, e.n)
+            IN  IF ~l.found THEN R(Oom(st), 0)
+                (* the type the checker attached to this use must be the declared type of the *)
+                (* binding that is in scope here                                              *)
+                ELSE IF l.t # e.ty THEN R([st EXCEPT !.tyerr = TRUE], 0)
+                ELSE R(st, l.v)
       [] e.k = "arrlit" -> LET r == EvalSeq(prog, e.es, st, <<>>) IN R(r.st, r.vs)
       [] e.k = "tuplit" -> LET r == EvalSeq(prog, e.es, st, <<>>) IN R(r.st, r.vs)
       [] e.k = "arrrep" ->
@@ -355,9 +360,10 @@ Eval(prog, e, st) ==
                 ELSE LET callee == [ra.st EXCEPT !.scopes =
                                       << ra.st.scopes[1],
                                          [n \in {fd.params[i].n : i \in 1..Len(fd.params)} |->
-                                            ra.vs[CHOOSE i \in 1..Len(fd.params) :
-                                                    fd.params[i].n = n
-                                                    /\ \A j \in (i + 1)..Len(fd.params) : fd.params[j].n # n]] >>]
+                                            LET pi == CHOOSE i \in 1..Len(fd.params) :
+                                                        fd.params[i].n = n
+                                                        /\ \A j \in (i + 1)..Len(fd.params) : fd.params[j].n # n
+                                            IN  [v |-> ra.vs[pi], t |-> fd.params[pi].t]] >>]
                          rb == ExecBlock(prog, fd.body, callee)
                      IN  R([rb.st EXCEPT !.scopes = ra.st.scopes], rb.v)
       [] e.k = "if" ->
@@ -377,9 +383,10 @@ Eval(prog, e, st) ==
 (* run fn `main` of prog on the argument values args (one per parameter) *)
 Run(prog, args) ==
     LET fd == prog.fns[prog.main]
-        consts == [n \in (DOMAIN prog.consts) \ {"_"} |-> prog.consts[n].v]
+        consts == [n \in (DOMAIN prog.consts) \ {"_"} |-> [v |-> prog.consts[n].v, t |-> prog.consts[n].ty]]
         params == [n \in {fd.params[i].n : i \in 1..Len(fd.params)} |->
-                      args[CHOOSE i \in 1..Len(fd.params) : fd.params[i].n = n]]
-        st0 == [scopes |-> <<consts, params>>, panic |-> {}, oom |-> FALSE]
+                      LET pi == CHOOSE i \in 1..Len(fd.params) : fd.params[i].n = n
+                      IN  [v |-> args[pi], t |-> fd.params[pi].t]]
+        st0 == [scopes |-> <<consts, params>>, panic |-> {}, oom |-> FALSE, tyerr |-> FALSE]
     IN  ExecBlock(prog, fd.body, st0)
 =============================================================================
